@@ -39,6 +39,25 @@ def frames_reset_ok(ctx):
     return False, 'VM::run does not cut `frames` back to the base frame before executing (a failed line inside a call leaves extra frames)'
 
 
+def result_kind(p, r):
+    """'err' / 'ok' / 'unknown' for the Result a path returns: by construction, or by what the path tested about it"""
+    if r[0] == 'errof' or (r[0] == 'agg' and r[2] == 'Err'):
+        return 'err'
+    if r[0] == 'agg' and r[2] == 'Ok':
+        return 'ok'
+    raw = p.env.get('_0')
+    for (what, val, b) in p.constraints:
+        if what[0] == 'switch' and isinstance(what[1], tuple) and what[1][0] == 'call' and what[1][1].endswith(('::is_err', '::is_ok')) and what[1][2]:
+            a = what[1][2][0]
+            a = p.env.get(a[1], a) if a[0] == 'ref' else a
+            if a == raw or simp(a) == r:
+                truth = True if val is None else bool(val)
+                return 'err' if truth == what[1][1].endswith('::is_err') else 'ok'
+        if what[0] == 'variant' and what[2] == 'core::result::Result' and (what[3] == raw or p.env.get(what[1]) == raw):
+            return 'err' if val == 'Err' else 'ok'
+    return 'unknown'
+
+
 def run(ctx, rep):
     F = ctx.facts()
     S = ctx.syn()
@@ -53,7 +72,7 @@ def run(ctx, rep):
     resets = {}
     for b in pre:
         for st in fn.blocks[b]['stmts']:
-            if st['k'] == 'assign' and st['place']['local'] == 1:
+            if st['k'] == 'assign' and fn.alias_root(st['place']['local']) == 1:
                 fl = place_fields(st['place'])
                 if len(fl) == 1:
                     resets.setdefault(fl[0], []).append('assigned')
@@ -63,7 +82,7 @@ def run(ctx, rep):
         if t['k'] == 'call' and t['args']:
             n = callee_name(t)
             d = fn.def_rvalue(t['args'][0])
-            if d and d[0] == 'assign' and d[3]['k'] == 'ref' and d[3]['place']['local'] == 1:
+            if d and d[0] == 'assign' and d[3]['k'] == 'ref' and fn.alias_root(d[3]['place']['local']) == 1:
                 fl = place_fields(d[3]['place'])
                 if fl and (n.endswith('::clear') or n.endswith('::truncate')):
                     resets.setdefault(fl[0], []).append(n.split('::')[-1])
@@ -94,7 +113,7 @@ def run(ctx, rep):
     err_paths = 0
     for p in AbsInt(F, ca, max_paths=5000).run():
         r = simp(p.env.get('_0'))
-        if p.exit != 'return' or not r or r[0] not in ('errof',) and not (r[0] == 'agg' and r[2] == 'Err'):
+        if p.exit != 'return' or not r or result_kind(p, r) == 'ok':
             continue
         err_paths += 1
         this = {k: False for k in restored}
